@@ -122,8 +122,9 @@ func (f *crashFile) WriteAt(p []byte, off int64) (int, error) {
 }
 
 func (f *crashFile) Write(p []byte) (int, error) {
-	f.c.point()
-	// sequential writes in pogreb are headers and gob payloads: never straddle a sector in this model
+	// Sequential writes are gob payloads only. The real encoder may issue several Write calls
+	// where the token model issues one, so they are not crash points of their own: the
+	// truncating open before them is, and so is the next mutating call after them.
 	return f.File.Write(p)
 }
 
